@@ -82,7 +82,7 @@ def order_tags(prog):
     return tags
 
 
-def report_diff(ctx, it, cfg, diff, other_cfgs_agree=None):
+def report_diff(ctx, it, cfg, diff, also=(), seen_keys=None):
     """shrink and report one model-vs-EVM difference"""
     prog, calls = it["prog"], it["calls"]
     t0 = time.time()
@@ -117,6 +117,11 @@ def report_diff(ctx, it, cfg, diff, other_cfgs_agree=None):
         if it.get("key"):
             key = it["key"]
         detail["order_sensitive_shapes"] = sorted(tags)
+        detail["also_failing_under"] = list(also)
+        if seen_keys is not None:
+            if key in seen_keys:
+                return
+            seen_keys.add(key)
         ctx.violation("failing-input", f"compiled bytecode disagrees with source semantics ({sd['what']}) under {cfg.name}",
                       detail, key=key)
 
@@ -163,7 +168,9 @@ def differential(ctx, n_prog, cfgs, salt="gen", features=None):
     rejected = {}
     reported = 0
     reg_reported = set()
+    seen_keys = set()
     for i, it in enumerate(items):
+        failing = []
         for j, cfg in enumerate(cfgs):
             if not D.cfg_applicable(it["prog"], cfg):
                 continue
@@ -180,14 +187,16 @@ def differential(ctx, n_prog, cfgs, salt="gen", features=None):
             n_cmp += 1
             n_calls += len(it["calls"])
             d = H.compare(it["prog"], it["calls"], it["model"], o)
-            if d is not None and (reported < 3 or (it.get("key") and it["key"] not in reg_reported)):
-                if it.get("key"):
-                    if it["key"] in reg_reported:
-                        continue
-                    reg_reported.add(it["key"])
-                else:
-                    reported += 1
-                report_diff(ctx, it, cfg, d)
+            if d is not None:
+                failing.append((cfg, d))
+        if failing and (reported < 3 or it.get("key")):
+            # one report per program (first failing configuration; the others are listed)
+            if not it.get("key"):
+                reported += 1
+            cfg, d = failing[0]
+            report_diff(ctx, it, cfg, d, also=[c.name for c, _ in failing[1:]], seen_keys=seen_keys)
+        elif failing:
+            ctx.corr["further_failing_programs"] = ctx.corr.get("further_failing_programs", 0) + 1
     stats["revert"] = D.revert_stats(items)
     stats["compile_rejections_by_config"] = rejected
     stats["program_config_pairs_compared"] = n_cmp
